@@ -2,6 +2,7 @@
   CM.Proofs.BagPipeline — from a bag to the value its compiled field returns on the stack machine.
 -/
 import CM.Proofs.BagLink
+import CM.Proofs.BagCompileOK
 import CM.Props.C01
 namespace CM
 
@@ -54,19 +55,19 @@ end CM
 
 namespace CM
 
-/-- **From a bag to the value its compiled field returns.**  For a well-formed, acyclic bag whose compiled graph passes the
-executable well-formedness check of the VM theorems, with every used input bound, no scheduled failure and no impure function:
+/-- **From a bag to the value its compiled field returns.**  For a well-formed, acyclic bag all of whose edges are of the
+simple kinds `vm_correct` covers (`EdgeK.wf`), with every used input bound, no scheduled failure and no impure function:
 calling the compiled graph on the stack machine stops and returns exactly the value of the term the output node computes
 (`BDen`), evaluated by the specification `CM.Model.Denote` - or raises exactly the error that evaluation gives. -/
 theorem pipeline_value {b : Bag} {o : BNode} {t : BTerm} (hb : b.WF) (hac : acyclicB b.edges = true)
-    (hok : (b.compileGraph o).okB = true) (env : String → Option Val) (w : World)
+    (hwf : ∀ e ∈ b.edges, e.edge.wf = true) (env : String → Option Val) (w : World)
     (hc : CallOK (b.compileGraph o) env) (hf : w.failAt = []) (hp : w.impureFns = [])
     (hd : BDen b o t) (hnm : t.NoMissing) :
     ∃ N out steps, (∀ fuel, N ≤ fuel → (b.compileGraph o).call env w fuel = some (out, steps)) ∧
       match (t.den (denCfgOf env w)).v with
       | .ok v => ∃ s, out = .done (.val v) s
       | .error e => ∃ s, out = .raised e s := by
-  have gok := okB_sound _ hok
+  have gok : GraphOK (b.compileGraph o) := compile_ok hb.outs hb.inLeaf hwf
   have H : LinkHyp b o (denCfgOf env w) :=
     { single := hb.single, inLeaf := hb.inLeaf, peeled := peeled_of_acyclic hac, base := gok.toGraphBase, pure := hp }
   have := C01.compiled_value_no_faults _ gok env w hc hf
